@@ -99,6 +99,16 @@ def ops_for(rng, z):
            ('concatenate', lambda s: pb.concatenate([s, type(s).like(s, start_time=None)]), True),
            ('signal_transform', lambda s: smooth3(s, k=2), False),
            ('rechunk', lambda s: s.rechunk(), True), ('to_dask', lambda s: s.to_dask_array(), True)]
+    # the public FFT wrappers called directly on the signal's array, with the keywords scipy.fft documents (norm=, n=, axis=; s=, axes=
+    # for the 2-D / N-D transforms on the sample axes' side is covered by C20): the Dask branch must honour them like the NumPy branch
+    fname = rng.choice(['fft', 'ifft'])
+    kw = dict(axis=0)
+    if rng.random() < 0.7:
+        kw['norm'] = rng.choice(['ortho', 'forward', 'backward'])
+    if rng.random() < 0.4:
+        kw['n'] = L + rng.choice([-3, 4])
+    out.append(('pb_fft_keywords', lambda s: pb.Signal(getattr(pb.fft, fname)(s.data, **kw), sample_rate=s.sample_rate, meta=dict(s.meta or {}, fft=[fname, sorted(kw)])), False))
+    out.append(('pb_fft_keywords', lambda s: pb.Signal(getattr(pb.fft, fname)(s.data, **kw), sample_rate=s.sample_rate, meta=dict(s.meta or {}, fft=[fname, sorted(kw)])), False))
     if isinstance(z, pb.RadioSignal):
         out += [('freq_slice', lambda s: s[:, : max(1, s.nchan - 1)], True), ('concat_freq', lambda s: pb.concatenate([s, s], axis='freq'), True),
                 ('incoherent', lambda s: pb.incoherent_dedispersion(s, pb.DM(0.3)), False)]
